@@ -22,6 +22,12 @@ def exact_place(rng, V):
     s = 2.0 ** int(rng.integers(-2, 3))
     diam = float(np.max(np.linalg.norm(V - V.mean(0), axis=1))) * 2
     t = gen.dy(rng.uniform(-1, 1, 3) * rng.choice([0.0, 1.0, 10.0]) * diam * s * (n * k), 4)
+    if rng.random() < 0.2:
+        # far from the origin compared with its size (2^15 .. 2^20 diameters along one or two axes, exactly representable): the triangulation
+        # of the faces, which the centroid and the inertia tensor are built on, must still be that of the faces
+        far = gen.dy(rng.uniform(-1, 1, 3), 3) * diam * s * 2.0 ** int(rng.integers(15, 21))
+        far[int(rng.integers(3))] = 0.0
+        t = t + far
     L = M * (k * s)
     return V @ L.T + t, L, t
 
